@@ -508,7 +508,9 @@ def _run_stream_exchange_sync(
         try:
             req_reader = ValidatedReader(ipc.open_stream(stream), app._server.ipc_validation)
             input_batch, custom_metadata = req_reader.read_next_batch_with_custom_metadata()
-        except pa.ArrowInvalid as exc:
+        except (pa.ArrowInvalid, IPCError, StopIteration) as exc:
+            # StopIteration: a well-framed stream with no batch; IPCError: a batch that
+            # fails validation.  Both are malformed requests, like not-IPC bytes.
             raise _RpcHttpError(exc, status_code=HTTPStatus.BAD_REQUEST) from exc
 
         # Extract both tokens before resolution — resolve_external_location
